@@ -590,4 +590,7 @@ void run_C01(void) {
     for (size_t q = 0; q < ARRAY_LEN(BIGS); q++)
       for (int v = 0; v < 12; v++) svp_case(bN[ni], (int)((q + ni + (size_t)v) % NFAM), v & 1, (v >> 1) % 3 | (v >= 6 ? 4 : 0), BIGS[q][0], BIGS[q][1], (unsigned)q % 4, 101);
   }
+  // modules / tables created, used and destroyed in random order, several alive at once
+  for (unsigned rep = 0; rep < (G.thorough ? 240u : 24u); rep++)
+    ops_lifecycle_case("C01 objects", LKM_MOD_FFT64 | LKM_REIM_FFT | LKM_REIM_IFFT | LKM_REIM_MUL, (rep % 4) == 3 ? DISP_GENERIC : DISP_NATIVE, 160, 0, rep, "lifecycle_uses");
 }
